@@ -88,8 +88,8 @@ ASSUMPTIONS = [
     "weak densities: decided for charge scales 1e-6..1e-4 on Clenshaw-Curtis/Becke, HandyMod, Handy and (ode tol 1e-4) Gauss-Legendre/Becke "
     "grids, where the measured deviation of V[lam rho]/lam from V[rho] on the unchanged tree is <= 3.7e-5 over 4 global-RNG seeds "
     "(tolerance 1e-2 = documented accuracy, >= 270 x); Simpson/Becke grids (seed-dependent noise 4e-5 at 1e-6, 4e-3 at 1e-8) and "
-    "scales below 1e-6 are NOT decided; comparison with the exact potential only where the base error is <= 1e-4 (not for "
-    "molecules, not for first node 1e-5 with include_origin=False). Strong densities: charge factors 1e2..2e3 (>= 1e4 the "
+    "scales below 1e-6 are NOT decided; comparison with the exact potential only where the base error is <= 4e-5 (Clenshaw-Curtis with "
+    "first node 1e-6, Gauss-Legendre/Becke with origin node; not molecules, HandyMod, Handy, first node 1e-5). Strong densities: charge factors 1e2..2e3 (>= 1e4 the "
     "library frequently reports non-convergence)",
     "points exactly on / within 1e-10 of a grid centre: only the closed-form part (coulomb_potential) and the robust potential for "
     "density == core model are decided there. solve_poisson_bvp's interpolant returns exactly 0 for |r| < 1e-300 by construction "
@@ -336,7 +336,7 @@ def cases(tier, seed):
         else:
             kind = ["cc-becke", "gl-handymod", "cc-becke", "gl-handy", "gl-becke-origin"][(k // 3) % (2 if q else 5)]
             if kind == "cc-becke":
-                spec = {"kind": kind, "n": _pick(rng, [100, 120]), "rmin": _pick(rng, [1e-6, 1e-6, 1e-5]), "R": _pick(rng, [1.0, 1.5])}
+                spec = {"kind": kind, "n": _pick(rng, [100, 120]), "rmin": _pick(rng, [1e-6, 1e-6, 1e-5]) if k >= 3 else 1e-6, "R": _pick(rng, [1.0, 1.5])}
                 opts = {"include_origin": False, "rlp": 1e6}
             elif kind == "gl-handymod":
                 spec = {"kind": kind, "n": _pick(rng, [100, 120]), "rmax": _pick(rng, [60.0, 80.0])}
@@ -786,8 +786,11 @@ def _run(ctx, family, params):
                 rho = ref.aniso_density(g.points, comps, ctr) + ref.gauss_density(g.points, [c0], [a0], [ctr])
                 truth = ref.aniso_potential(P, comps, ctr) + ref.gauss_potential(P, [c0], [a0], [ctr])
                 scale = c0 + float(sum(abs(c[0]) for c in comps))
-            # first node 1e-5 with include_origin=False costs 2e-4 V(0)/r of accuracy: truth comparison only with >= 100x margin
-            truth_decided = not (params["rad"]["kind"] == "cc-becke" and params["rad"]["rmin"] > 2e-6)
+            # comparison with the exact potential only where the base error leaves >= 100x margin (measured worst: Clenshaw-Curtis
+            # with first node 1e-6 3.9e-5, Gauss-Legendre/Becke with origin node 7e-6; first node 1e-5 3e-4, HandyMod 9.8e-5,
+            # Handy 1.04e-4 -> homogeneity only)
+            kind = params["rad"]["kind"]
+            truth_decided = (kind == "cc-becke" and params["rad"]["rmin"] <= 2e-6) or kind == "gl-becke"
         lam = float(_loguniform(rng, 1e-6, params["lam_hi"]))
         subj = _subject("solve_poisson_bvp" + (":molgrid" if dens == "mol" else ""), params["rad"], params["opts"]) + f":weak-density:{dens}"
         kw = _bvp_kwargs(params["opts"])
